@@ -69,6 +69,9 @@ struct ATx {
     hdeps: Vec<AHdep>,
     sum: String,
     occ: String,
+    /// type script of the first output: "none" | "ok" | "fail" | "loop"
+    #[serde(default)]
+    otype: String,
 }
 #[derive(Deserialize, Clone, Debug)]
 struct AProbe {
@@ -198,6 +201,9 @@ fn build_world(c: &ckb_chain_spec::consensus::Consensus) -> World {
     reg("DEP", &depl, &["dfail", "dloop"], &mut cells);
     let f = mk("g4", vec![(out(20_000 * CKB, data_lock(&fail_bin)), Bytes::new()), (out(30_000 * CKB - 1000, data_lock(&loop_bin)), Bytes::new())], &cells);
     reg("F", &f, &["f1", "l1"], &mut cells);
+    // T : g8 -> t1, a cell whose TYPE script is the always-success code (args 9): a type group of its own when spent
+    let t = mk("g8", vec![(out(50_000 * CKB - 1000, lock()).as_builder().type_(Some(lock_args(9)).pack()).build(), Bytes::new())], &cells);
+    reg("T", &t, &["t1"], &mut cells);
     let e = mk("g6", vec![(out(50_000 * CKB - 1000, lock()), Bytes::new())], &cells);
     cells.insert("e1".into(), CellInfo { op: OutPoint::new(e.hash(), 0), cap: 50_000 * CKB - 1000 });
     // the detour transaction spends cells the probes (g5, g7) and the context (g1) use
@@ -238,8 +244,15 @@ fn probe_tx(w: &mut World, a: &ATx) -> TransactionView {
         _ => total + 1,
     };
     let occupied = out(0, lock()).occupied_capacity(Capacity::zero()).unwrap().as_u64();
+    // type script of the first output (its own script group): always success (args 77) / always failure / infinite loop
+    let otype: Option<Script> = match a.otype.as_str() {
+        "ok" => Some(lock_args(77)),
+        "fail" => Some(data_lock(&testdata("always_failure"))),
+        "loop" => Some(data_lock(&testdata("infinite_loop"))),
+        _ => None,
+    };
     match a.occ.as_str() {
-        "roomy" => b = b.output(out(outsum, lock())).output_data(Bytes::new().pack()),
+        "roomy" => b = b.output(out(outsum, lock()).as_builder().type_(otype.pack()).build()).output_data(Bytes::new().pack()),
         x => {
             let first = if x == "exact" { occupied } else { occupied - 1 };
             b = b.output(out(first, lock())).output_data(Bytes::new().pack());
@@ -412,7 +425,7 @@ fn run_ctx(ci: usize, ctx: &ACtx, seed: u64) {
             break;
         }
         // ---- next context block: palette transactions scheduled at height m+1, in palette order
-        let names = ["X", "Y", "DG", "DEP", "F"];
+        let names = ["X", "Y", "DG", "DEP", "F", "T"];
         let body: Vec<TransactionView> =
             names.iter().filter(|nm| ctx.sched.iter().any(|s| &s.name == *nm && s.h == m as u64 + 1)).map(|nm| w.palette[*nm].clone()).collect();
         w.salt += 1;
